@@ -43,6 +43,26 @@ GridClause2(t) ==
     IN IF tot = 0 THEN "skip"
        ELSE IF \E b \in B : AbsI(CountOf(t, <<b[1], b[2]>>) * tot - t.N * m[b]) > tolc(b) * tot + (IF cut(b) THEN t.N * 2 * g ELSE 0) THEN "grid-not-evenly-spread"
        ELSE "ok"
+\* marginal of the coordinate u of a product with a first factor over x that depends on u: the mass of a u-bin is the number of
+\* lattice points (x, u) of the product inside (x on a 57 x 57 lattice of the window, u on the bin's sub-lattice)
+XLat == {-896 + 32 * i : i \in 0..56}
+QXYU(t, x, y, u) == [val |-> [nm \in (DOMAIN t.prm) \cup {"x", "u"} |-> IF nm = "x" THEN <<x, y>> ELSE IF nm = "u" THEN <<u>> ELSE <<t.prm[nm]>>], w |-> 1]
+MassU(t, b) == LET s == Sc(t) IN Cardinality({q \in SubPts(s.lo * F, ((s.size * F) \div s.den), b, s.g) \X XLat \X XLat : In(E(t), QXYU(t, q[2], q[3], q[1]))})
+DepMargClause(t) ==
+    LET B == 0..(Sc(t).nb - 1)
+        m == [b \in B |-> MassU(t, b)]
+        tot == SumOver(B, m)
+    \* slack: the lattice mass of a bin is uncertain by about one ring of lattice points per sub-lattice row (~ 40 of ~ 2000)
+    IN IF tot = 0 THEN "skip"
+       ELSE IF \E b \in B : ~BinomOK(CountOf(t, <<b>>), t.N, m[b], tot, 160) THEN "dependent-product-marginal"
+       ELSE "ok"
+\* accumulated small grids (std points per call): no cell in which one grid is expected to put at least two points is starved
+\* (gets less than a quarter of its share)
+GridAccClause(t) ==
+    LET B == Boxes2(t)  m == [b \in B |-> Mass2(t, <<b[1], b[2]>>)]  tot == SumOver(B, m)
+    IN IF tot = 0 THEN "skip"
+       ELSE IF \E b \in B : m[b] * Sc(t).std >= 2 * tot /\ CountOf(t, <<b[1], b[2]>>) * tot * 4 < t.N * m[b] THEN "small-grids-leave-part-of-the-domain-empty"
+       ELSE "ok"
 \* gaussian on an axis-aligned box [lo, lo + nb*size): boxes of size 1/4, mean and std in quarter units (std = 2 quarters = 1/2)
 GaussMass1(t, i) == LET s == Sc(t) IN PhiAt(s.lo4 + i + 1 - s.mean4[1]) - PhiAt(s.lo4 + i - s.mean4[1])
 GaussClause(t) ==
@@ -106,6 +126,8 @@ Check(t) ==
     ELSE LET c == CASE s.check = "uniform2" -> UniformClause2(t)
                     [] s.check = "uniform1" -> UniformClause1(t)
                     [] s.check = "grid2" -> GridClause2(t)
+                    [] s.check = "gridacc" -> GridAccClause(t)
+                    [] s.check = "depmarg" -> DepMargClause(t)
                     [] s.check = "gauss" -> GaussClause(t)
                     [] s.check = "lhs" -> LhsClause(t)
                     [] s.check = "circlebd" -> CircleBdClause(t)
